@@ -1,6 +1,8 @@
 package zv
 
 import (
+	"go/token"
+	"regexp"
 	"sort"
 	"strings"
 
@@ -19,13 +21,12 @@ func init() {
 
 func checkC16(c *Ctx) {
 	c.Rule("R16.1", "column order and presence guards in consoleEncoder.EncodeEntry", 12)
-	c.Rule("R16.2", "separators only between non-empty parts; constructor defaults", 3)
-	c.Rule("R16.3", "context rendered by a clone of the spaced JSON encoder, namespaces closed before the emptiness test, braces, released", 6)
+	c.Rule("R16.2", "separators only between non-empty parts; constructor defaults", 2)
+	c.Rule("R16.3", "context rendered by a clone of the spaced JSON encoder, namespaces closed before the emptiness test, braces, released", 3)
 	c.Rule("R16.4", "optional column encoders are nil-guarded", 6)
 
 	fn := c.Method(CorePath, "consoleEncoder", "EncodeEntry")
-	wc := c.Method(CorePath, "consoleEncoder", "writeContext")
-	if !c.Anchor("R16.1", "zapcore.consoleEncoder.EncodeEntry/writeContext", fn != nil && wc != nil) {
+	if !c.Anchor("R16.1", "zapcore.consoleEncoder.EncodeEntry", fn != nil) {
 		return
 	}
 	name := fn.String()
@@ -80,7 +81,11 @@ func checkC16(c *Ctx) {
 			sites = append(sites, site{"line-ending", call, []string{}})
 		case f.Name() == "writeContext":
 			sites = append(sites, site{"context", call, []string{}})
-			c.Check(Strip(args[2]) == ssa.Value(fn.Params[2]), "R16.1", name, "context-fields", call.Pos(), "the context receives the call-site fields")
+			okF := false
+			for _, a := range args {
+				okF = okF || Strip(a) == ssa.Value(fn.Params[2])
+			}
+			c.Check(okF, "R16.1", name, "context-fields", call.Pos(), "the context receives the call-site fields")
 		case f.Name() == "Fprint":
 			sites = append(sites, site{"join", call, nil})
 		}
@@ -162,54 +167,8 @@ func checkC16(c *Ctx) {
 		}
 		c.Check(nl, "R16.1", name, "stack-on-next-line", s.in.Pos(), "the stack trace starts on the line after the entry")
 	}
-	// ---------------- R16.2 ----------------
-	if j, ok := by["join"]; ok {
-		var sepCall ssa.Instruction
-		for _, cl := range Calls(fn) {
-			if f := CalleeFunc(cl); f != nil && f.Name() == "AppendString" && strings.HasSuffix(Desc(Args(cl)[1]), ".ConsoleSeparator") {
-				sepCall = cl
-			}
-		}
-		ok := sepCall != nil
-		if ok {
-			atoms := AtomStrings(Guards(sepCall))
-			ok = containsS(atoms, "(φrangeindex + 1) > 0") && Dominates(sepCall, sepCall) == false
-			h1, h2 := LoopHeader(sepCall.Block()), LoopHeader(j.in.Block())
-			ok = ok && h1 != nil && h1 == h2
-			// Fprint of element i on every iteration
-			elemRead := false
-			AllInstrs(fn, func(in ssa.Instruction) {
-				if ia, isIA := in.(*ssa.IndexAddr); isIA && LoopHeader(ia.Block()) == h2 && Dominates(ia, j.in) && Desc(ia) == "getSliceEncoder().elems[(φrangeindex + 1)]" {
-					elemRead = true
-				}
-			})
-			ok = ok && elemRead
-		}
-		c.Check(ok, "R16.2", name, "join-separator-between", j.in.Pos(), "columns are joined with the configured separator written exactly before every element but the first")
-	}
-	for _, n := range []string{"message"} {
-		s, ok := by[n]
-		if !ok {
-			continue
-		}
-		okS := false
-		for _, cl := range Calls(fn) {
-			if f := CalleeFunc(cl); f != nil && f.Name() == "addSeparatorIfNecessary" && cl.Block() == s.in.Block() && Dominates(cl, s.in) {
-				okS = true
-			}
-		}
-		c.Check(okS, "R16.2", name, "separator-if-necessary/"+n, s.in.Pos(), "the %s is preceded by 'separator if the line is non-empty'", n)
-	}
-	asn := c.Method(CorePath, "consoleEncoder", "addSeparatorIfNecessary")
-	if c.Anchor("R16.2", "zapcore.consoleEncoder.addSeparatorIfNecessary", asn != nil) {
-		ok := false
-		for _, cl := range Calls(asn) {
-			if f := CalleeFunc(cl); f != nil && f.Name() == "AppendString" {
-				ok = containsS(AtomStrings(Guards(cl)), "Len(line) > 0") && strings.HasSuffix(Desc(Args(cl)[1]), ".ConsoleSeparator") && Desc(Args(cl)[0]) == "line"
-			}
-		}
-		c.Check(ok, "R16.2", asn.String(), "iff-nonempty", asn.Pos(), "the separator is written exactly when the line already has content")
-	}
+	// ---------------- R16.2 / R16.3: the grammar of the line, by path exploration ----------------
+	c16Grammar(c, fn)
 	nc := c.Func(CorePath, "NewConsoleEncoder")
 	if c.Anchor("R16.2", "zapcore.NewConsoleEncoder", nc != nil) {
 		okDef, okSpaced := false, false
@@ -224,82 +183,6 @@ func checkC16(c *Ctx) {
 			}
 		})
 		c.Check(okDef && okSpaced, "R16.2", nc.String(), "defaults", nc.Pos(), "an empty separator defaults to a tab and the JSON part is built in spaced mode")
-	}
-	// ---------------- R16.3 ----------------
-	{
-		wn := wc.String()
-		var clone, add, closeNS, open, write, closeB ssa.Instruction
-		for _, cl := range CallsDeep(wc) {
-			f := CalleeFunc(cl)
-			if f == nil {
-				continue
-			}
-			switch f.Name() {
-			case "Clone":
-				clone = cl
-			case "addFields":
-				add = cl
-			case "closeOpenNamespaces":
-				closeNS = cl
-			case "AppendByte":
-				if b, ok := constBytes(Args(cl)[1]); ok && Desc(Args(cl)[0]) == "line" {
-					if b[0] == '{' {
-						open = cl
-					}
-					if b[0] == '}' {
-						closeB = cl
-					}
-				}
-			case "Write", "AppendBytes":
-				if Desc(Args(cl)[0]) == "line" {
-					write = cl
-				}
-			}
-		}
-		ok := clone != nil && add != nil && closeNS != nil && open != nil && write != nil && closeB != nil
-		if !ok {
-			c.Bad("R16.3", wn, "shape", wc.Pos(), "writeContext must clone, add fields, close namespaces, test emptiness and wrap the bytes in braces")
-		} else {
-			rcv := wc.Params[0].Name()
-			c.Check(Desc(Args(clone.(ssa.CallInstruction))[0]) == rcv+".jsonEncoder" && mustPass(wc, func(i ssa.Instruction) bool { return i == clone }), "R16.3", wn, "clones-embedded-encoder", clone.Pos(), "the context is always rendered on a clone of the embedded JSON encoder (which holds the With-context bytes)")
-			ctxD := Desc(Args(add.(ssa.CallInstruction))[0])
-			cloneD := "Clone(" + rcv + ".jsonEncoder)"
-			c.Check(strings.Contains(ctxD, cloneD) && Strip(Args(add.(ssa.CallInstruction))[1]) == ssa.Value(wc.Params[2]) && Dominates(clone, add), "R16.3", wn, "fields-into-clone", add.Pos(), "the call-site fields go into that clone (%s)", ctxD)
-			// emptiness test on the clone's buffer guards the braces, and comes after the namespaces were closed
-			var emptyTest string
-			for _, a := range AtomStrings(Guards(open)) {
-				if strings.Contains(a, cloneD) && strings.HasSuffix(a, ".buf) > 0") || strings.HasSuffix(a, ".buf)) > 0") && strings.Contains(a, cloneD) {
-					emptyTest = a
-				}
-			}
-			c.Check(Dominates(add, closeNS) && Dominates(closeNS, open) && strings.Contains(Desc(Args(closeNS.(ssa.CallInstruction))[0]), cloneD) && emptyTest != "", "R16.3", wn, "namespaces-closed-before-empty-test", closeNS.Pos(), "open namespaces are closed on the clone before its emptiness is tested (%s)", emptyTest)
-			wd := Desc(Args(write.(ssa.CallInstruction))[1])
-			c.Check(Dominates(open, write) && Dominates(write, closeB) && strings.HasPrefix(wd, "Bytes(") && strings.Contains(wd, cloneD), "R16.3", wn, "braces-around-context", open.Pos(), "a non-empty context is written as '{' + the clone's bytes + '}' (%s)", wd)
-			okSep := false
-			for _, cl := range CallsDeep(wc) {
-				if f := CalleeFunc(cl); f != nil && f.Name() == "addSeparatorIfNecessary" && Dominates(cl, open) && cl.Block() == open.Block() {
-					okSep = true
-				}
-			}
-			c.Check(okSep, "R16.2", wn, "separator-if-necessary/context", open.Pos(), "the context is preceded by 'separator if the line is non-empty', never an unconditional one")
-			// released
-			rel := false
-			AllInstrs(wc, func(in ssa.Instruction) {
-				if df, ok := in.(*ssa.Defer); ok {
-					if mk, ok := df.Call.Value.(*ssa.MakeClosure); ok {
-						free, put := false, false
-						for _, c2 := range Calls(mk.Fn.(*ssa.Function)) {
-							if f := CalleeFunc(c2); f != nil {
-								free = free || f.Name() == "Free"
-								put = put || f.Name() == "putJSONEncoder"
-							}
-						}
-						rel = free && put && Dominates(clone, df)
-					}
-				}
-			})
-			c.Check(rel, "R16.3", wn, "clone-released", wc.Pos(), "the clone's buffer is freed and the clone recycled on every exit (deferred)")
-		}
 	}
 	c9EncoderPurity(c, "R16.3")
 	// ---------------- R16.4 ----------------
@@ -376,4 +259,286 @@ func mergeGuardSets(sets [][]string) [][]string {
 		}
 	}
 	return sets
+}
+
+// c16Grammar explores every path of consoleEncoder.EncodeEntry (its own helpers inline, the join loop walked for up
+// to three columns) and matches the sequence of writes to the line against the documented shape:
+//
+//	columns joined by the separator (before every column but the first),
+//	[separator-if-the-line-is-non-empty message],
+//	context rendered on a copying clone of the embedded JSON encoder: fields added, namespaces closed, THEN tested
+//	for emptiness; if non-empty: separator-if-non-empty '{' bytes '}',
+//	[newline stack], line ending.
+func c16Grammar(c *Ctx, fn *ssa.Function) {
+	name := fn.String()
+	je := c.Named(CorePath, "jsonEncoder")
+	jClone := c.Method(CorePath, "jsonEncoder", "Clone")
+	if !c.Anchor("R16.3", "zapcore.jsonEncoder.Clone", je != nil && jClone != nil) {
+		return
+	}
+	// functions that produce a clone holding a copy of the parent's context bytes
+	copying := map[*ssa.Function]bool{jClone: true}
+	for _, f := range Region(jClone) {
+		for _, g := range Region(f) {
+			for _, cl := range Calls(g) {
+				if IsCallTo(cl, "(*go.uber.org/zap/buffer.Buffer).Write", "(*go.uber.org/zap/buffer.Buffer).AppendBytes") {
+					copying[f] = true
+				}
+			}
+		}
+	}
+	var lineV ssa.Value
+	for _, cl := range Calls(fn) {
+		if c2, ok := cl.(*ssa.Call); ok && isFreshBuffer(c2) && lineV == nil {
+			lineV = c2
+		}
+	}
+	if lineV == nil {
+		c.Und("R16.2", name, "line-buffer", fn.Pos(), "cannot find the line buffer (bufferpool.Get())")
+		return
+	}
+	resolve := func(st *ConcState, v ssa.Value) ssa.Value {
+		v = Strip(v)
+		for k := 0; k < 12; k++ {
+			nx := st.Step(v)
+			if nx == nil {
+				break
+			}
+			v = Strip(nx)
+		}
+		return v
+	}
+	isLine := func(st *ConcState, v ssa.Value) bool { return resolve(st, v) == lineV }
+	// v is (a field/bytes of) the clone made on this path
+	var fromClone func(st *ConcState, v ssa.Value, d int) bool
+	fromClone = func(st *ConcState, v ssa.Value, d int) bool {
+		if d > 8 {
+			return false
+		}
+		v = resolve(st, v)
+		switch x := v.(type) {
+		case *ssa.Call:
+			if sc := StaticCallee(x); sc != nil && copying[sc] {
+				return true
+			}
+			if x.Call.IsInvoke() && x.Call.Method.Name() == "Clone" {
+				return true
+			}
+			if f := CalleeFunc(x); f != nil && (f.Name() == "Bytes" || f.Name() == "Len") && len(Args(x)) == 1 {
+				return fromClone(st, Args(x)[0], d+1)
+			}
+			if CallBuiltin(x) == "len" {
+				return fromClone(st, x.Call.Args[0], d+1)
+			}
+		case *ssa.TypeAssert:
+			return fromClone(st, x.X, d+1)
+		case *ssa.UnOp:
+			return fromClone(st, x.X, d+1)
+		case *ssa.FieldAddr:
+			return fromClone(st, x.X, d+1)
+		case *ssa.MakeInterface:
+			return fromClone(st, x.X, d+1)
+		}
+		return false
+	}
+	cut := 0
+	seqs, trunc := ConcPaths(fn, ConcCfg{
+		MaxIter: 3, Cut: &cut, Prune: true, MaxStates: 400000,
+		Inline: func(h *ssa.Function) bool {
+			if rn := RecvNamed(h); rn != nil && rn.Obj().Name() == "jsonEncoder" {
+				return false
+			}
+			switch h.Name() {
+			case "addFields", "putJSONEncoder", "getSliceEncoder", "putSliceEncoder":
+				return false
+			}
+			return true
+		},
+		Event: func(in ssa.Instruction, st *ConcState) string {
+			call, ok := in.(*ssa.Call)
+			if !ok {
+				return ""
+			}
+			args := Args(call)
+			f := CalleeFunc(call)
+			if f == nil {
+				if _, ok := optionalField(resolve(st, call.Call.Value)); ok {
+					return "col"
+				}
+				if _, ok := optionalField(call.Call.Value); ok {
+					return "col"
+				}
+				return ""
+			}
+			if sc := StaticCallee(call); sc != nil && copying[sc] {
+				if strings.HasSuffix(st.Desc(args[0]), ".jsonEncoder") {
+					return "clone"
+				}
+				return "clone?" + st.Desc(args[0])
+			}
+			if call.Call.IsInvoke() && f.Name() == "Clone" {
+				return "clone?" + st.Desc(call.Call.Value)
+			}
+			switch f.Name() {
+			case "FullNameEncoder":
+				return "col"
+			case "addFields":
+				if fromClone(st, args[0], 0) && resolve(st, args[1]) == ssa.Value(fn.Params[2]) {
+					return "fields"
+				}
+				return "fields?" + st.Desc(args[0])
+			case "closeOpenNamespaces":
+				if fromClone(st, args[0], 0) {
+					return "closeNS"
+				}
+				return "closeNS?" + st.Desc(args[0])
+			case "putJSONEncoder":
+				if fromClone(st, args[0], 0) {
+					return "put"
+				}
+				return "put?" + st.Desc(args[0])
+			case "Free":
+				if len(args) == 1 && fromClone(st, args[0], 0) {
+					return "free"
+				}
+			case "Fprint":
+				if len(args) > 0 && isLine(st, args[0]) {
+					return "elem"
+				}
+			}
+			if f.Pkg() == nil || f.Pkg().Path() != "go.uber.org/zap/buffer" || len(args) == 0 {
+				if f.Name() == "AppendString" && call.Call.IsInvoke() && len(args) == 1 {
+					return "col" // onto the column (array) encoder
+				}
+				return ""
+			}
+			if !isLine(st, args[0]) {
+				return ""
+			}
+			switch f.Name() {
+			case "AppendString", "WriteString":
+				d := st.Desc(args[1])
+				switch {
+				case strings.HasSuffix(d, ".ConsoleSeparator"):
+					return "sep"
+				case d == fn.Params[1].Name()+".Message":
+					return "msg"
+				case d == fn.Params[1].Name()+".Stack":
+					return "stack"
+				case strings.HasSuffix(d, ".LineEnding"):
+					return "eol"
+				}
+				return "str?" + d
+			case "AppendByte", "WriteByte":
+				if k, ok := st.Int(args[1]); ok {
+					switch byte(k) {
+					case '{':
+						return "{"
+					case '}':
+						return "}"
+					case '\n':
+						return "nl"
+					}
+					return "byte?" + itoa(int(k))
+				}
+				return "byte?"
+			case "Write", "AppendBytes":
+				if fromClone(st, args[1], 0) {
+					return "ctx"
+				}
+				return "bytes?" + st.Desc(args[1])
+			case "Len", "Bytes", "String", "Cap":
+				return ""
+			}
+			return "line." + f.Name()
+		},
+		Branch: func(cond ssa.Value, taken bool, st *ConcState) string {
+			pol := taken
+			for k := 0; k < 8; k++ {
+				if u, ok := cond.(*ssa.UnOp); ok && u.Op == token.NOT {
+					cond, pol = u.X, !pol
+					continue
+				}
+				if nx := st.Step(cond); nx != nil {
+					cond = nx
+					continue
+				}
+				break
+			}
+			bo, ok := cond.(*ssa.BinOp)
+			if !ok {
+				return ""
+			}
+			k, isC := ConstInt(bo.Y)
+			if !isC || k != 0 {
+				return ""
+			}
+			lenOf := resolve(st, bo.X)
+			lc, isCall := lenOf.(*ssa.Call)
+			if !isCall {
+				return ""
+			}
+			var subject ssa.Value
+			if f := CalleeFunc(lc); f != nil && f.Name() == "Len" && len(Args(lc)) == 1 {
+				subject = Args(lc)[0]
+			} else if CallBuiltin(lc) == "len" {
+				subject = lc.Call.Args[0]
+			} else {
+				return ""
+			}
+			nonEmpty := false
+			switch bo.Op {
+			case token.GTR, token.NEQ:
+				nonEmpty = pol
+			case token.EQL, token.LEQ:
+				nonEmpty = !pol
+			default:
+				return ""
+			}
+			switch {
+			case resolve(st, subject) == ssa.Value(fn.Params[2]):
+				if nonEmpty {
+					return "extra=T"
+				}
+				return "extra=F"
+			case strings.HasSuffix(st.Desc(subject), fn.Params[0].Name()+".jsonEncoder.buf") || strings.HasSuffix(st.Desc(subject), fn.Params[0].Name()+".buf"):
+				if nonEmpty {
+					return "shared=T"
+				}
+				return "shared=F"
+			case isLine(st, subject):
+				if nonEmpty {
+					return "lineNE=T"
+				}
+				return "lineNE=F"
+			case fromClone(st, subject, 0):
+				if nonEmpty {
+					return "ctxempty=F"
+				}
+				return "ctxempty=T"
+			}
+			return ""
+		},
+	})
+	if trunc || len(seqs) == 0 {
+		c.Und("R16.2", name, "line-grammar", fn.Pos(), "path exploration incomplete (%d sequences, truncated=%v)", len(seqs), trunc)
+		return
+	}
+	re := regexp.MustCompile(`^(col )*(elem (sep elem )*)?((lineNE=T sep |lineNE=F )msg )?(extra=F shared=F |shared=F extra=F |(extra=T |extra=F shared=T |shared=T |shared=F extra=T )?clone fields closeNS (ctxempty=T |ctxempty=F (lineNE=T sep |lineNE=F )\{ ctx \} )free put )(nl stack )?eol $`)
+	var bad []string
+	for _, sq := range seqs {
+		toks := strings.Split(sq, " ; ")
+		if sq == "" {
+			toks = nil
+		}
+		if !re.MatchString(strings.Join(toks, " ") + " ") {
+			bad = append(bad, sq)
+		}
+	}
+	if len(bad) > 3 {
+		bad = append(bad[:3:3], "… "+itoa(len(bad)-3)+" more")
+	}
+	c.Check(len(bad) == 0, "R16.2", name, "line-grammar", fn.Pos(), "each of the %d explored paths (own helpers inline, up to 3 columns; %d longer paths cut) writes: columns joined by the separator placed before every column but the first; [separator iff the line is non-empty, message]; the context on a copying clone of the embedded JSON encoder - call-site fields added, namespaces closed, then tested for emptiness, and if non-empty: separator iff the line is non-empty, '{', the clone's bytes, '}'; [newline, stack]; line ending. Offending: %v", len(seqs), cut, bad)
+	c.Check(len(bad) == 0, "R16.3", name, "context-shape", fn.Pos(), "same exploration: the context is rendered by a copying clone (it carries the With-context bytes), never by the shared encoder, with the namespaces closed before the emptiness test")
+	c.Check(len(bad) == 0, "R16.3", name, "clone-released-after-use", fn.Pos(), "same exploration (deferred functions run at their function's return): the clone's buffer is freed and the clone recycled on every path, and only after its bytes were copied into the line")
 }
